@@ -310,7 +310,128 @@ Proof.
   intros Hpos Hnd H. rewrite extract_weights_unfold in H.
   destruct (fold_res atom_step atoms []) as [r0|] eqn:E; cbn [bind] in H; try discriminate.
   split.
-  - eapply atoms_all_checked; eauto.
+  - eapply (atoms_all_checked atoms [] r0); eauto.
   - apply fold_res_ok_all in H. eapply Forall_impl; [|exact H]. intros [n e] (a & b & Hab). exists a, b. exact Hab.
 Qed.
 End Extract.
+
+(* ---------------------------------------------------------------- facts: pos_value / neg_value *)
+Lemma prob_fact_ok v : - (1/10^9) <= v <= 1 + 1/10^9 ->
+  prob_pos_value Rops (RF v) = Ok (RF v) /\ prob_neg_value Rops (RF v) = Ok (RF (1 - v)).
+Proof.
+  intros. cbv [prob_pos_value prob_neg_value]. rewrite prob_value_ok by auto. cbn [bind]. split; auto.
+  apply prob_negate_R.
+Qed.
+
+Lemma prob_fact_raises v : (v < - (1/10^9) \/ v > 1 + 1/10^9) ->
+  prob_pos_value Rops (RF v) = Raise InvalidValue /\ prob_neg_value Rops (RF v) = Raise InvalidValue.
+Proof.
+  intros H. apply prob_value_raises in H. cbv [prob_pos_value prob_neg_value]. rewrite H. split; reflexivity.
+Qed.
+
+(* log semiring: the NEGATIVE weight is stricter than value(): ln v must be <= 1e-12 *)
+Lemma log_fact_ok v : - (1/10^9) <= v <= exp (1/10^12) ->
+  exists p n, log_pos_value Rops (RF v) = Ok p /\ log_neg_value Rops (RF v) = Ok n.
+Proof.
+  intros [Hl Hu]. pose proof exp_bracket as [B1 B2]. cbv [log_pos_value log_neg_value].
+  destruct (Rlt_dec v (1/10^9)).
+  - rewrite log_value_zero by lra. cbn [bind]. rewrite log_negate_ninf. eauto.
+  - rewrite log_value_ln by lra. cbn [bind].
+    assert (Hv : 0 < v) by lra.
+    assert (ln v <= 1/10^12).
+    { rewrite <- (ln_exp (1/10^12)). destruct Hu as [Hu|Hu]. left; apply ln_increasing; auto. rewrite Hu; lra. }
+    destruct (Rle_dec (ln v) (- (1/10^10))).
+    + rewrite log_negate_ln by auto. eauto.
+    + rewrite log_negate_cut by lra. eauto.
+Qed.
+
+Lemma log_fact_raises v : (v < - (1/10^9) \/ v > exp (1/10^12)) ->
+  log_neg_value Rops (RF v) = Raise InvalidValue.
+Proof.
+  intros H. pose proof exp_bracket as [B1 B2]. cbv [log_neg_value].
+  destruct (Rle_dec (- (1/10^9)) v) as [Hl|Hl]; [destruct (Rle_dec v (1 + 1/10^9)) as [Hu|Hu]|].
+  - assert (Hv : v > exp (1/10^12)) by lra.
+    rewrite log_value_ln by lra. cbn [bind]. apply log_negate_raises.
+    rewrite <- (ln_exp (1/10^12)). apply ln_increasing; auto. apply exp_pos.
+  - assert (E : log_value Rops (RF v) = Raise InvalidValue) by (apply log_value_raises; lra). rewrite E. reflexivity.
+  - assert (E : log_value Rops (RF v) = Raise InvalidValue) by (apply log_value_raises; lra). rewrite E. reflexivity.
+Qed.
+
+(* ---------------------------------------------------------------- whole extract_weights, probability semiring *)
+Definition ok_or_invalid {A} (m : res A) : Prop := (exists a, m = Ok a) \/ m = Raise InvalidValue.
+
+Lemma fold_res_ok_or_invalid {A B} (f : A -> B -> res A) l :
+  (forall s x, ok_or_invalid (f s x)) -> forall s, ok_or_invalid (fold_res f l s).
+Proof.
+  intros Hf. induction l; intros s; cbn.
+  - left; eauto.
+  - destruct (Hf s a) as [(s' & E)|E]; rewrite E; cbn [bind]; auto. right; reflexivity.
+Qed.
+
+Lemma prob_value_total x : ok_or_invalid (prob_value Rops x).
+Proof.
+  destruct x as [| |r|]; try (right; reflexivity).
+  destruct (Rle_dec (- (1/10^9)) r); [destruct (Rle_dec r (1 + 1/10^9))|].
+  - left. rewrite prob_value_ok by lra. eauto.
+  - right. apply prob_value_raises. lra.
+  - right. apply prob_value_raises. lra.
+Qed.
+
+Lemma prob_negate_total x : exists y, prob_negate Rops x = Ok y.
+Proof. cbv [prob_negate ret]. eauto. Qed.
+
+Lemma prob_fold_plus_total ws : forall s, exists c, fold_res (fun s w => prob_plus Rops s w) ws s = Ok c.
+Proof. induction ws; intros; cbn; eauto. Qed.
+
+Lemma prob_ad_complement_total ws : exists c, prob_ad_complement Rops ws = Ok c.
+Proof.
+  cbv [prob_ad_complement]. cbn [prob_zero ret bind].
+  destruct (prob_fold_plus_total ws (flit Rops 0 1)) as (c & E). rewrite E. cbn [bind]. apply prob_negate_total.
+Qed.
+
+Lemma prob_in_domain_total c : exists b, prob_in_domain Rops c = Ok b.
+Proof. cbv [prob_in_domain ret]. eauto. Qed.
+
+Lemma prob_update_total nodes extra w : ok_or_invalid (ad_update_weights (prob_sr Rops) nodes extra w).
+Proof.
+  destruct (le_lt_dec (length nodes) 1).
+  - rewrite update_trivial by auto. left; eauto.
+  - rewrite (update_nontrivial (prob_sr Rops) (RF 1) prob_sr_one prob_sr_neg) by lia.
+    cbn [s_ad_complement s_in_domain prob_sr].
+    destruct (prob_ad_complement_total (map (posw (RF 1) w) nodes)) as (c & E). rewrite E. cbn [bind].
+    destruct (prob_in_domain_total c) as ([|] & E'); rewrite E'; cbn [bind negb ret try_reraise exn_eqb].
+    + left; eauto.
+    + right; reflexivity.
+Qed.
+
+Lemma prob_atom_step_total r x : ok_or_invalid (atom_step (prob_sr Rops) r x).
+Proof.
+  destruct x as [k w]. rewrite atom_step_eq. destruct (negb _); [|left; cbv [ret]; eauto].
+  destruct w; cbn [s_one s_false s_true s_pos_value s_neg_value prob_sr].
+  - left. cbv [prob_one ret bind]. eauto.
+  - left. cbv [prob_false prob_zero prob_one ret bind]. eauto.
+  - left. cbv [prob_true prob_zero prob_one ret bind]. eauto.
+  - cbv [prob_pos_value prob_neg_value]. destruct (prob_value_total v) as [(a & E)|E]; rewrite E; cbn [bind].
+    + destruct (prob_negate_total a) as (y & E'). rewrite E'. cbn [bind]. left; cbv [ret]; eauto.
+    + right; reflexivity.
+Qed.
+
+Lemma prob_extract_total atoms cs : ok_or_invalid (extract_weights (prob_sr Rops) atoms cs).
+Proof.
+  rewrite extract_weights_unfold.
+  destruct (fold_res_ok_or_invalid (atom_step (prob_sr Rops)) atoms (prob_atom_step_total) []) as [(r0 & E)|E]; rewrite E; cbn [bind].
+  - apply fold_res_ok_or_invalid. intros s [n e]. apply prob_update_total.
+  - right; reflexivity.
+Qed.
+
+(* a fact / AD head whose probability is outside [-1e-9, 1+1e-9] makes weight extraction raise InvalidValue *)
+Lemma prob_invalid_fact_rejected atoms cs k v :
+  (forall k w, In (k, w) atoms -> 0 < k)%Z -> NoDup (map fst atoms) ->
+  In (k, WVal (RF v)) atoms -> (v < - (1/10^9) \/ v > 1 + 1/10^9) ->
+  extract_weights (prob_sr Rops) atoms cs = Raise InvalidValue.
+Proof.
+  intros Hpos Hnd Hin Hv. destruct (prob_extract_total atoms cs) as [(r & E)|E]; auto.
+  exfalso. destruct (extract_all_checked (prob_sr Rops) atoms cs r Hpos Hnd E) as [H _].
+  destruct (H k (RF v) Hin) as (p & n & Ep & _). cbn [s_pos_value prob_sr] in Ep.
+  destruct (prob_fact_raises v Hv) as [E1 _]. rewrite E1 in Ep. discriminate.
+Qed.
